@@ -274,7 +274,8 @@ def run_unit(unit, tier="quick", dev=False, only=None):
             pf = []
             for o in new[: unit.get("max_replays", 8)]:
                 pf += ["--harness", o.harness]
-            cmd2 = ["cargo", "kani", "-Z", "function-contracts", "-Z", "stubbing", "-Z", "concrete-playback",
+            cmd2 = ["cargo", "kani", "-Z", "function-contracts", "-Z", "stubbing", "-Z", "concrete-playback", "-Z", "unstable-options",
+                    "--harness-timeout", f"{unit.get('harness_timeout', 600)}s",
                     "--concrete-playback=print", "--exact"] + unit.get("kani_args", []) + pf + ["--output-format", "terse"]
             rc2, out2 = sh(cmd2, cwd=crate_dir, timeout=unit.get("timeout", 1800))
             if dev:
